@@ -132,6 +132,7 @@ pub fn run_c10<M: ZooMsg + ?Sized>(sc: &Scenario, keep_log: bool) -> RunOutput {
     let nspec = if sc.aux.systematic { NSpec::Exactly(3) } else { NSpec::UpTo(4) };
     let mut plan = make_plan_opt::<M>(&mut dec, &mut stats, nspec, 1, !sc.aux.systematic);
     plan.retain_p = 0;
+    plan.msgs.retain(|m| !m.unvalidated);
     let plan = Arc::new(plan);
     let wire = match guarded(|| wire_of::<M>(&plan)) {
         Ok(Ok(w)) => w,
@@ -428,9 +429,11 @@ fn check_hostile<M: ZooMsg + ?Sized>(w: &World, h: &Hostile, wire: &crate::c06::
         // the outcome right after the fi clean messages
         let mut seen_msgs = 0;
         let mut verdict: Option<&RecvRec> = None;
-        for r in &w.recvs {
+        let mut verdict_at = 0usize;
+        for (ri, r) in w.recvs.iter().enumerate() {
             if seen_msgs == fi {
                 verdict = Some(r);
+                verdict_at = ri;
                 break;
             }
             if matches!(r.outcome, RecvOutcome::Msg { .. }) {
@@ -444,6 +447,21 @@ fn check_hostile<M: ZooMsg + ?Sized>(w: &World, h: &Hostile, wire: &crate::c06::
                     // except for bytes that arrived in the same read call
                     if r.delivered_at_start >= fe && r.calls > 0 {
                         return viol("O3-parse-not-read-more", "read-more", "recv", format!("the malformed frame {}..{} was already complete when recv started, yet recv issued {} read call(s) before reporting Parse", fs, fe, r.calls));
+                    }
+                    // asked again while it still holds the very same bytes (nothing consumed,
+                    // window unchanged): the stream still continues with that complete malformed
+                    // message, so the answer is again Parse and again without asking for more
+                    if let Some(n) = w.recvs.get(verdict_at + 1) {
+                        let same = (n.window_before.0, n.window_before.1) == (r.window_after.0, r.window_after.1) && n.consumed_before == r.consumed_after && r.delivered_at_end >= fe;
+                        if same && !matches!(n.outcome, RecvOutcome::Panic(_)) && (!matches!(n.outcome, RecvOutcome::Parse(_)) || n.calls > 0) {
+                            let o: String = format!("{:?}", n.outcome).chars().take(100).collect();
+                            return viol(
+                                "O3-parse-not-read-more",
+                                "read-more-when-asked-again",
+                                "recv",
+                                format!("recv reported Parse for the complete malformed frame {}..{}; called again with the same bytes still at the head of its buffer it issued {} read call(s) and returned {}", fs, fe, n.calls, o),
+                            );
+                        }
                     }
                 }
                 other => {
